@@ -72,10 +72,10 @@ impl AuthorHeads {
     pub fn encode(&self, size_limit: Option<usize>) -> Result<Vec<u8>> {
         let mut by_timestamp = BTreeMap::new();
         for (author, ts) in self.iter() {
-            by_timestamp.insert(*ts, *author);
+            by_timestamp.insert((*ts, *author), ());
         }
         let mut items = Vec::new();
-        for (ts, author) in by_timestamp.into_iter().rev() {
+        for ((ts, author), ()) in by_timestamp.into_iter().rev() {
             items.push((ts, author));
             if let Some(size_limit) = size_limit {
                 if postcard::experimental::serialized_size(&items)? > size_limit {
